@@ -59,7 +59,7 @@ Theorem map_equiv_remote a b o : m_equiv a b -> m_equiv (m_exec_remote a o) (m_e
 Proof.
   intros [H Hs]. split.
   - intros k. rewrite !mget_exec, H. reflexivity.
-  - destruct o; cbn [m_exec_remote]; try exact Hs.
+  - destruct o; cbn [m_exec_remote]; try exact Hs; try reflexivity.
     + unfold m_put. rewrite <- (H k). destruct (mget a k) as [old|]; cbn; [|lia].
       destruct (ts_lt (m_t old) (opid_ts id)); cbn; [destruct (m_v old); lia|exact Hs].
     + unfold m_remove_remote. rewrite <- (H k). destruct (mget a k) as [[v t0]|]; [|exact Hs].
